@@ -55,9 +55,10 @@ type (
 		hasX bool
 	}
 	plRaise struct {
-		level string
-		msg   string
-		args  []Expr
+		level   string
+		msg     string
+		args    []Expr
+		errcode string // USING ERRCODE = '…' (SQLSTATE), "" = P0001
 	}
 	plPerform struct{ q *Select }
 	plExecute struct {
@@ -386,7 +387,43 @@ func (p *plParser) stmt() (plStmt, error) {
 					st.args = append(st.args, e)
 				}
 			}
-			p.collectUntil(func(t token) bool { return t.isOp(";") })
+			// doc 43.9 RAISE … USING option = expression [, …]: ERRCODE (a five-character SQLSTATE
+			// literal) is honoured, MESSAGE/DETAIL/HINT are accepted; anything else fails closed
+			if p.peek().isKw("using") {
+				p.i++
+				for {
+					opt := p.peek()
+					if opt.k != tIdent {
+						return nil, p.err("RAISE … USING: option name expected")
+					}
+					p.i++
+					if !(p.opt("=") || p.opt(":=")) {
+						return nil, p.err("RAISE … USING: '=' expected")
+					}
+					et := p.collectUntil(func(t token) bool { return t.isOp(";") || t.isOp(",") })
+					switch opt.s {
+					case "errcode":
+						if len(et) != 1 || et[0].k != tString || len(et[0].s) != 5 {
+							return nil, p.err("RAISE … USING ERRCODE: only a five-character SQLSTATE literal is supported")
+						}
+						st.errcode = et[0].s
+					case "detail", "hint":
+					case "message":
+						if st.msg != "" || len(et) != 1 || et[0].k != tString {
+							return nil, p.err("RAISE … USING MESSAGE: only a string literal without a format string is supported")
+						}
+						st.msg = et[0].s
+					default:
+						return nil, p.err("RAISE … USING " + opt.s + " not supported")
+					}
+					if !p.opt(",") {
+						break
+					}
+				}
+			}
+			if !p.peek().isOp(";") {
+				return nil, p.err("unsupported RAISE form")
+			}
 			return st, p.expectSemi()
 		case "perform":
 			p.i++
@@ -1132,7 +1169,11 @@ func (r *plRun) runStmt(st plStmt) (plSignal, error) {
 			msg = strings.Replace(msg, "%", t, 1)
 		}
 		if s.level == "exception" {
-			return sigNone, pgErr("P0001", "%s", msg)
+			code := "P0001"
+			if s.errcode != "" {
+				code = s.errcode
+			}
+			return sigNone, pgErr(code, "%s", msg)
 		}
 		return sigNone, nil
 	case *plPerform:
